@@ -198,6 +198,11 @@ let handle_smtp (kind : string) (ins : string list) (outs : string list) : bool 
                ent_all := !ent_all @ entitled c None [] [] dlg;
                if not (seq_ok false false O dlg) then add "C03:sequencing";
                if not (List.for_all reply_ok dlg) then add "C03:reply-shape";
+               (* C05: where the policy decides (no hook answer or an explicit defer), 250 / 550 say what it says *)
+               if not (List.for_all (accept_ok c) dlg) then begin
+                 add "C05:accept-decision-differs-from-domain-policy";
+                 add "C17:defer-did-not-fall-back-to-policy"
+               end;
                if List.length (List.concat (List.map snd dlg)) <> List.length ir then add "C03:reply-count";
                (* C17: on every line a hook rule applies to, the reply must be the one the hook's answer dictates *)
                List.iter2 (fun (it, r) ((_, mr), _) ->
@@ -300,5 +305,5 @@ let () =
               else "fail:origin-rule"
           | _ -> "fail:no-answer" in
         Mlutil.print_model (List.map field_of_bool m) verdict
-    | "smtp", _ when handle_smtp kind ins outs -> ()
+    | ("smtp" | "smtpdefer"), _ when handle_smtp kind ins outs -> ()
     | _ -> Mlutil.print_model ["UNKNOWN-KIND"] "ok")
